@@ -1,5 +1,5 @@
 (* Crash safety of the partition log: the statements over operations and histories. *)
-From LB Require Import Base.Prelude Log.Model Log.Retention Log.Compact Log.Proofs Log.Refine Log.Disk Log.DiskBase Log.DiskProofs Log.DiskBlocks Log.DiskTrunc.
+From LB Require Import Base.Prelude Log.Model Log.Retention Log.Compact Log.Proofs Log.Refine Log.Disk Log.DiskBase Log.DiskProofs Log.DiskBlocks Log.DiskTrunc Log.DiskClean Log.DiskCleanOp.
 From Coq Require Import ZifyBool.
 Open Scope Z_scope.
 
@@ -60,6 +60,7 @@ Section Safety.
   Definition survives (s : st) (o : dop) (x : rec) : Prop :=
     match o with
     | DTrunc t => r_off x < t
+    | DClean ttl => Kc key_of p s ttl x       (* a record of the segments the clean leaves *)
     | _ => True
     end.
 
@@ -69,7 +70,6 @@ Section Safety.
     | DAppend ms => ms <> [] /\ ep_mono (cache_latest_epoch (d_ep (s_disk s))) (number (next_of s) ms)
     | DASet rs => rs <> [] /\ sorted_from (next_of s) rs /\ ep_mono (cache_latest_epoch (d_ep (s_disk s))) rs
     | DTrunc t => forall s', exec key_of fixed p s (DTrunc t) = Some s' -> cbound (d_ep (s_disk s')) (next_of s')
-    | DClean _ => False
     | _ => True
     end.
 
@@ -113,6 +113,12 @@ Section Safety.
         { apply mid_good; [apply Himg|exact Hne|exact Hidx|reflexivity|].
           destruct Hm as (A & _ & _ & D). unfold next_of in Hguard. cbn [s_disk] in Hguard. unfold d_active in *. rewrite A, D in Hguard. exact Hguard. }
         apply (good_meq _ _ GF). apply meq_sym. exact Hm.
+    - (* Clean *)
+      unfold script, exec, script. eexists. split; [reflexivity|].
+      destruct (seq_from_eq _ _ _ _ (clean_op_seq key_of p s G ttl)) as [Hall Hfin]. split; [exact Hall|].
+      intros s' [= <-]. split; [|cbn; lia]. destruct Hfin as (segs & c & Hm & Hne & Hidx & Hcb & Himg).
+      assert (GF : Good (mkSt (cmk s segs [] c) (s_hw s))) by (apply mid_good; [apply Himg|exact Hne|exact Hidx|reflexivity|exact Hcb]).
+      apply (good_meq _ _ GF). apply meq_sym. exact Hm.
     - (* SetHighWatermark *)
       unfold script, exec, script. eexists. split; [reflexivity|]. split.
       + intros n. destruct n; cbn; apply good_image; exact G.
